@@ -139,6 +139,11 @@ func focusFamilies(g *Gen, t *fTables, ft focusTarget, bases [][]byte, emit func
 			}
 		}
 		emit(man, opt)
+		if r%4 == 3 {
+			if sm, so, ok := staleLenMsg(g, m, man, opt); ok {
+				emit(sm, so) // a stale stored length on one buffer-backed element
+			}
+		}
 	}
 	for i := 0; i < nMan+len(m.DecOpt); i++ {
 		s, _ := slot(i)
@@ -451,8 +456,25 @@ func genCodecEncFocus(g *Gen, w *bufio.Writer, t *fTables) {
 		focusFamilies(g, t, ft, bases, func(man []ieVal, opt []*ieVal) {
 			wire := renderMsg(ft.m, man, opt)
 			fmt.Fprintf(w, "enc %s hdr=%s %s %s\n", ft.fam, hexs(wire[:ft.d.HeaderLen]), ft.m.Name, fieldsStr(man, opt))
+			if staleVals(ft.m, man, opt) {
+				return // a stale stored length: the rendering is not a canonical encoding of anything
+			}
 			fmt.Fprintf(w, "canon %s\n", hexs(wire))
 			fmt.Fprintf(w, "dec plain %s\n", hexs(wire))
 		})
 	}
+}
+
+func staleVals(m *fMsg, man []ieVal, opt []*ieVal) bool {
+	for i := range man {
+		if m.DecMan[i].Store == "buf" && m.DecMan[i].LenSize > 0 && man[i].ln != len(man[i].data) {
+			return true
+		}
+	}
+	for j := range opt {
+		if opt[j] != nil && m.DecOpt[j].Store == "buf" && m.DecOpt[j].LenSize > 0 && opt[j].ln != len(opt[j].data) {
+			return true
+		}
+	}
+	return false
 }
